@@ -12,6 +12,8 @@ Core Lean only.  Two layers live here:
 * **table layer** — the vocabulary of the access table that `tools/translators/locksets.py` regenerates from the C++
   sources on every check (`Entry`, `Guard`, `Obj`, `Role`, `TRule`) and the *decidable* check `followsDiscipline`
   of one entry against a hand-written discipline (`Tulz.Model.Discipline`).
+* **instantiation layer** — `World`, `concreteDiscipline`, `IsInstance`: what it means that an access event of an
+  execution over concrete `(object, member)` locations is an execution of a table entry.
 
 The theorems are in `Tulz/Proofs/Drf.lean` and `Tulz/Props/C15.lean`.
 -/
